@@ -100,4 +100,34 @@ PROPS = {
         ],
         "cli": True
 },
+    "C16": {
+        "rule": "library: generate_with under six replayed streams (seeded uniform 15k quick / 300k thorough per strategy, all-zero, all-one, alternating, counter, skewed), model consumes the logged draws; counting of hue sectors / channel values / gray levels over the uniform stream; CLI: pastel random -n N -s S for N in {0,1,2,10,1000}; all cases non-trivial",
+        "trust": [
+                "ThreadRng's actual distribution is outside the model",
+                "rand 0.9 StandardUniform is modelled, validated by the correspondence"
+        ],
+        "cli": True
+},
+    "C17": {
+        "rule": "binary: 260 (quick) / 4000 input lists (lengths 0-60, duplicates far apart, equal-key clusters, translucent colours) x 5 keys x -r x -u, as arguments and on stdin; pastel list --sort for the five keys; keys and printed forms come from the library (pv-harness query); non-trivial = at least two colours",
+        "trust": [
+                "slice::sort_by_key / sort_by_cached_key are modelled as a stable merge sort, dedup_by_key as adjacent-duplicate removal; the key formulas are recomputed through the library"
+        ],
+        "cli": True,
+        "no_harness": True
+},
+    "C18": {
+        "rule": "format name through the binary for all 148 names, 3 RGB neighbours each, a lattice (step 51 quick / 17 thorough) and translucent colours \u2014 against brute force over the table (library) and against the model; pastel color under a pty for named / unnamed / translucent colours",
+        "trust": [
+                "the Generated table is written by pv-harness gen-named from the live code before lake build"
+        ],
+        "cli": True,
+        "no_harness": True,
+        "generated": [
+                [
+                        "gen-named",
+                        "Pastel/Generated/NamedTable.lean"
+                ]
+        ]
+},
 }
